@@ -341,8 +341,12 @@ fn greedy<F: FnMut(&mut Parser, TokenSet) -> bool>(
         if !f(parser, recovery) {
             return false;
         }
-        while f(parser, recovery) {
-            continue;
+        loop {
+            // a member that reports success on an error it could not skip must not be retried forever
+            let pos = parser.nth_range(0).start;
+            if !f(parser, recovery) || parser.nth_range(0).start == pos {
+                break;
+            }
         }
         true
     }
